@@ -403,6 +403,39 @@ def spe_anneal(repo, inc="include/tapkee"):
     return div, bound
 
 
+REC_KW = {"if","for","while","switch","catch","return","sizeof","else","do","new","delete","throw","static_cast","alignof","decltype","defined","operator","assert","typeid","noexcept","alignas","const_cast","reinterpret_cast","dynamic_cast"}
+def scan_recursive(repo, inc="include/tapkee"):
+    out=[]
+    root=os.path.join(repo,inc)
+    for dp,dn,fn in os.walk(root):
+        for f in sorted(fn):
+            if not f.endswith((".hpp",".h")): continue
+            path=os.path.join(dp,f); rel=os.path.relpath(path,root)
+            if rel.startswith("external/stichwort") : continue
+            s=blank_comments_strings(open(path,errors="replace").read())
+            s=re.sub(r"^[ \t]*#[^\n]*$", lambda m:" "*len(m.group(0)), s, flags=re.M)
+            for m in re.finditer(r"\b([A-Za-z_]\w*)\s*\(", s):
+                name=m.group(1)
+                if name in REC_KW: continue
+                try:
+                    q=match_close4(s, m.end()-1, "(", ")")
+                except TranslateError:
+                    continue
+                rest=s[q+1:]
+                mm=re.match(r"\s*(?:const\b\s*)?(?:noexcept\b\s*)?(?:override\b\s*)?(?:->\s*[\w:<>,\s\*&]+?)?\s*\{", rest)
+                if not mm: continue
+                # a call expression followed by a block cannot occur: this is a definition (or a control macro)
+                o=q+1+mm.end()-1
+                try:
+                    c=match_close4(s,o,"{","}")
+                except TranslateError:
+                    continue
+                body=s[o+1:c]
+                if re.search(r"\b%s\s*\(" % re.escape(name), body):
+                    out.append((rel,name))
+    return sorted(set(out))
+
+
 def read(repo):
     def src(rel):
         p = os.path.join(repo, INC, rel)
@@ -471,6 +504,7 @@ def read(repo):
     F["f_omp_throws"] = ("sites", throws)
     F["f_omp_orphans"] = ("sites", orphans)
     F["_omp_regions"] = regions
+    F["f_recursive"] = ("pairs", scan_recursive(repo, INC))
     # ---- routines/spe.hpp: the divisor of the annealing step is the bound of the loop it sits in
     div, bound = spe_anneal(repo, INC)
     F["f_spe_anneal_div_is_bound"] = (div == bound)
@@ -480,7 +514,7 @@ def read(repo):
 ORDER = ["f_spe_clamp", "f_spe_ind2", "f_spe_sel", "f_spe_nbsize", "f_spe_nbwrite", "f_spe_rscale", "f_spe_roff",
          "f_spe_bufs", "f_spe_indices", "f_nb_clamp", "f_nb_retry_reclamps", "f_ltsa_cols", "f_hlle_dp",
          "f_hlle_cols", "f_hlle_ct", "f_tsne_kfactor", "f_tsne_rowp", "f_tsne_colp", "f_tsne_curp",
-         "f_omp_throws", "f_omp_orphans", "f_spe_anneal_div_is_bound"]
+         "f_omp_throws", "f_omp_orphans", "f_recursive", "f_spe_anneal_div_is_bound"]
 
 
 def emit(F):
@@ -500,6 +534,8 @@ def emit(F):
         v = F[k]
         if isinstance(v, bool):
             rows.append("     %s := %s" % (k, "true" if v else "false"))
+        elif isinstance(v, tuple) and v and v[0] == "pairs":
+            rows.append("     %s := [%s]" % (k, "; ".join('("%s"%%string, "%s"%%string)' % (f.replace('"', ""), n) for f, n in v[1])))
         elif isinstance(v, tuple) and v and v[0] == "sites":
             rows.append("     %s := [%s]" % (k, "; ".join('("%s"%%string, %d)' % (f.replace('"', ""), ln) for f, ln in v[1])))
         elif isinstance(v, int):
@@ -525,7 +561,7 @@ def emit(F):
 def translate(repo):
     try:
         F = read(repo)
-        return emit(F), {k: (v if isinstance(v, (bool, int)) else [list(x) for x in v[1]] if v[0] == "sites" else show_sx(v))
+        return emit(F), {k: (v if isinstance(v, (bool, int)) else [list(x) for x in v[1]] if v[0] in ("sites", "pairs") else show_sx(v))
                          for k, v in F.items()}
     except TranslateError:
         raise
@@ -560,6 +596,8 @@ SELF_TEST = [
     ("routines/multidimensional_scaling.hpp", "#pragma omp parallel\n    {\n        IndexType i_index_iter, j_index_iter;\n#pragma omp for nowait",
      "    {\n        IndexType i_index_iter, j_index_iter;\n#pragma omp for nowait", True),
     ("routines/spe.hpp", "for (IndexType i = 0; i < max_iter; ++i)", "const IndexType iterations = max_iter;\n    for (IndexType i = 0; i < iterations; ++i)", True),
+    ("neighbors/connected.hpp", "inline bool all_reachable_from_first(int N, const Neighbors& adjacency)\n{",
+     "inline int count_from(int v, const Neighbors& a, std::vector<bool>& seen)\n{\n    int n = 1;\n    seen[v] = true;\n    for (const int w : a[v])\n        if (!seen[w])\n            n += count_from(w, a, seen);\n    return n;\n}\n\ninline bool all_reachable_from_first(int N, const Neighbors& adjacency)\n{", True),
 ]
 
 
